@@ -69,6 +69,8 @@ def as_iter(eng, x):
         return ListIt([Agg("()", [e[0], e[1]]) for e in eng_order(eng, v)], byref=False)
     if isinstance(v, SetV): return ListIt(list(eng_order_set(eng, v)), byref=isinstance(x, Slot))
     if isinstance(v, Agg) and v.tag == "Range": return RangeIt(v)
+    if isinstance(v, Agg) and v.tag == "RangeFrom": return RangeFromIt(v)
+    if isinstance(v, Agg) and v.tag == "RangeInclusive": return RangeIt(Agg("Range", [v.f[0], eng.binop("Add", v.f[1], Sc(v.f[1].ty, 1))]))
     raise TypeError(f"as_iter {v!r}")
 
 class RangeIt(It):
@@ -133,6 +135,12 @@ def hash_perm(eng, obj, items):
     perm += rest
     obj._perm = (key, perm)
     return [items[i] for i in perm]
+class RangeFromIt(It):
+    def __init__(self, r): self.r = r
+    def next(self, eng):
+        s = self.r.f[0]; r = eng.binop("AddWithOverflow", s, Sc(s.ty, 1))
+        if eng.branch(r.f[1]): raise Panic("attempt to add with overflow in RangeFrom")
+        self.r.f[0] = r.f[0]; return s
 def eng_order(eng, m):
     if m.kind == "btree":
         if any(_has_sym(e[0]) for e in m.e): return sym_sorted(eng, m.e, key=lambda e: e[0])
